@@ -154,10 +154,16 @@ def run_cases(mod, ctx, cases, kinds_wanted='mgs'):
         f = c.line.split(' ')
         if c.setup: c.setup()
         ans, exc = C_.impl_answer(mod.impl, f[0], f[1:], ctx)
-        r = {'case': c, 'impl': ans, 'exc': exc, 'm': None, 'g': None, 's': None, 'sexp': None, 'sline': None}
+        r = {'case': c, 'impl': ans, 'exc': exc, 'm': None, 'g': None, 's': None, 'sexp': None, 'sline': None, 'mexp': ans}
         res.append(r)
         if 'm' in c.kinds and 'm' in kinds_wanted:
-            lines_m.append('m:' + c.line); idx_m.append(k)
+            if c.model is not None:
+                ml, mexp = c.model(ans)
+                if ml is not None:
+                    r['mexp'] = mexp
+                    lines_m.append(ml); idx_m.append(k)
+            else:
+                lines_m.append('m:' + c.line); idx_m.append(k)
         if 'g' in c.kinds and 'g' in kinds_wanted:
             lines_g.append('g:' + c.line); idx_g.append(k)
         if 's' in c.kinds and c.domain and 's' in kinds_wanted:
@@ -210,7 +216,7 @@ def analyse(res, known):
             if hit: knownhits.append((r, hit))
             else: viol.append(r)
         else:
-            if r['m'] is not None and r['m'] != r['impl']: ties.append(('model', r))
+            if r['m'] is not None and r['m'] != r['mexp']: ties.append(('model', r))
             if r['g'] is not None and r['g'] != r['impl']: ties.append(('generated', r))
     return viol, knownhits, ties
 
